@@ -130,7 +130,6 @@ Inductive value : Type :=
 | VArr (l : list value)
 | VHash (kvs : list (value * value)).           (* type "hash", keys in KeyOrder *)
 
-Definition str_nil : list Z := [110; 105; 108].
 Definition str_false : list Z := [102; 97; 108; 115; 101].
 
 Section Print.
